@@ -10,7 +10,7 @@ from .parsing.response import Response, ResponseCode, ResponseNo, ResponseOk, \
     ResponseBye
 
 __all__ = ['ResponseError', 'CloseConnection', 'NotSupportedError',
-           'TemporaryFailure', 'SearchNotAllowed', 'InvalidAuth',
+           'TemporaryFailure', 'SearchNotAllowed', 'UnknownCTE', 'InvalidAuth',
            'AuthorizationFailure', 'NotAllowedError', 'IncompatibleData',
            'MailboxError', 'MailboxNotFound', 'MailboxConflict',
            'MailboxHasChildren', 'MailboxReadOnly', 'AppendFailure',
@@ -58,6 +58,25 @@ class NotSupportedError(ResponseError, NotImplementedError):
 
     def get_response(self, tag: bytes) -> ResponseNo:
         return ResponseNo(tag, self._raw, ResponseCode.of(b'CANNOT'))
+
+
+class UnknownCTE(ResponseError, NotImplementedError):
+    """The content of a message part cannot be decoded for a ``BINARY``
+    fetch, because its ``Content-Transfer-Encoding`` is not known or its
+    encoded content is malformed.
+
+    See Also:
+        `RFC 3516 4.3 <https://tools.ietf.org/html/rfc3516#section-4.3>`_
+
+    """
+
+    def __init__(self, msg: str = 'Unknown Content-Transfer-Encoding.') \
+            -> None:
+        super().__init__(msg)
+        self._raw = msg.encode('utf-8')
+
+    def get_response(self, tag: bytes) -> ResponseNo:
+        return ResponseNo(tag, self._raw, ResponseCode.of(b'UNKNOWN-CTE'))
 
 
 class SearchNotAllowed(NotSupportedError):
